@@ -145,3 +145,26 @@ Definition udp_relay_response (a : addr) (port : N) (data : list N) : list N :=
   | AV6 o => [0; 0; 0; 4] ++ o ++ be16 port ++ data
   | ADom _ => []   (* not expressible: the target is a SocketAddr *)
   end.
+
+(* ---- the tunnel client's SOCKS listener (penguin/src/client/handle_remote/socks.rs), as far as it answers without
+   the tunnel: version 5 greeting -> method selection ("no authentication" if it is offered, in whatever position of the
+   list, else "no acceptable method" and the connection is closed); then the request: commands other than CONNECT and
+   UDP ASSOCIATE are answered "command not supported"; a request that does not parse is not answered.
+   None: outside this part (another version byte; CONNECT / ASSOCIATE need the tunnel). ---- *)
+Definition client_dialog5 (i : list N) : option (list N) :=
+  match i with
+  | 5 :: r =>
+      match v5_read_auth_methods r with
+      | Done ms rest =>
+          if existsb (N.eqb 0) ms then
+            match v5_read_request rest with
+            | Done (cmd, _, _) _ =>
+                if (cmd =? 1) || (cmd =? 3) then None
+                else Some (v5_write_auth_method 0 ++ v5_write_response_unspecified 7)
+            | _ => Some (v5_write_auth_method 0)
+            end
+          else Some (v5_write_auth_method 255)
+      | _ => Some []
+      end
+  | _ => None
+  end.
